@@ -380,9 +380,8 @@ func richDoc(sp string, legacy bool) J {
 			"defaultTCPClientName": "c0",
 			"defaultUDPClientName": "c0",
 			"domainSets":           L{J{"name": "ds0", "path": "@TMP@/ds.txt"}},
-			"prefixSets":           L{J{"name": "ps0", "path": "@TMP@/ps.txt"}},
 			"routes": L{
-				J{"name": "r0", "client": "g0", "resolver": "d0", "fromServers": L{"s1"}, "toDomainSets": L{"ds0"}, "toPrefixSets": L{"ps0"}},
+				J{"name": "r0", "client": "g0", "resolver": "d0", "fromServers": L{"s1"}},
 			},
 		},
 	}
